@@ -208,6 +208,15 @@ pub fn pick_segmentation(rng: &mut Rng, stream: &[u8], frame_ends: &[usize]) -> 
     }
 }
 
+/// JSON-RPC ids are arbitrary integers: (first id, stride) of a session with fewer than 600
+/// requests - mostly 1, 2, 3, ..., sometimes zero, negative, large or descending ids.
+pub fn pick_id_scheme(rng: &mut Rng) -> (i32, i32) {
+    *rng.pick(&[
+        (1, 1), (1, 1), (1, 1), (1, 1), (1, 1), (1, 1),
+        (0, 1), (-7, 1), (1_000_000, 7), (2_147_483_000, 1), (-1, -1), (-2_147_483_000, -1), (5, 0x1_0000),
+    ])
+}
+
 pub fn fresh_uri(i: usize) -> String {
     format!("file:///w/doc{i}.spl")
 }
